@@ -12,11 +12,20 @@ ROOT = os.path.dirname(os.path.dirname(os.path.abspath(__file__)))
 ap = argparse.ArgumentParser()
 ap.add_argument('commit'); ap.add_argument('prop'); ap.add_argument('fid'); ap.add_argument('what')
 ap.add_argument('--budget', default='40'); ap.add_argument('--sig', default=''); ap.add_argument('--also', default='')
-ap.add_argument('--race', action='store_true'); ap.add_argument('--replay', default='', help='take this replay file (confirm it on the reverted tree) instead of searching')
+ap.add_argument('--race', action='store_true'); ap.add_argument('--trust', action='store_true', help='with --replay: the fix does not revert textually; only check that the replay does not reproduce on /repo (the minus-tree run was done by hand)'); ap.add_argument('--replay', default='', help='take this replay file (confirm it on the reverted tree) instead of searching')
 a = ap.parse_args()
 wt = '/dev/shm/recfinding-%d' % os.getpid()
 subprocess.check_call(['git', '-C', '/repo', 'worktree', 'add', '-q', '--detach', wt, 'HEAD'])
 try:
+    if a.trust:
+        out = subprocess.run([ROOT + '/bin/verifctl', 'replay', a.replay], stdout=subprocess.PIPE, stderr=subprocess.STDOUT).stdout.decode()
+        if 'REPLAY not-reproduced' not in out:
+            print(out[-2000:]); print('replay still reproduces on /repo'); sys.exit(1)
+        for f in glob.glob(ROOT + '/replays/%s-*' % a.prop):
+            os.remove(f)
+        shutil.copy(a.replay, ROOT + '/replays/%s-0-0-%s' % (a.prop, os.path.basename(a.replay)))
+        a.replay = ''
+        raise StopIteration
     for c in [x for x in a.also.split(',') if x] + [a.commit]:
         subprocess.check_call(['git', '-C', wt, 'revert', '--no-commit', c])
     for f in glob.glob(ROOT + '/replays/%s-*' % a.prop):
@@ -32,6 +41,8 @@ try:
         shutil.copy(a.replay, ROOT + '/replays/%s-0-0-%s' % (a.prop, os.path.basename(a.replay)))
     else:
         subprocess.call([ROOT + '/bin/verifctl', 'check', a.prop, '--budget', a.budget], env=env)
+except StopIteration:
+    pass
 finally:
     subprocess.call(['git', '-C', '/repo', 'worktree', 'remove', '--force', wt])
 best = {}
